@@ -65,6 +65,40 @@ theorem encode_decode_own_form (S : Schema) (hS : S.WF) (d : Node) (v : List Val
   subst hd
   exact ⟨by rw [decode_encode S hS v hv], reserialize_same S hS v hv⟩
 
+/-! ## classes whose writer drops an attribute the parser reads (`Field.attrReadOnly`)
+
+`S.fix` is the repaired schema, `resetFs` forgets in a value exactly the dropped attributes. -/
+
+/-- the parsers of the code as it is and of the repaired class agree on every tree -/
+theorem parse_fix (S : Schema) (x : Node) : S.fix.parse x = S.parse x := by
+  have hd : ∀ y, S.fix.decode y = S.decode y := fun y => decFs_fix S.fields _ y
+  have ha : S.fix.admit x = S.admit x := rfl
+  simp only [Schema.parse, ha]
+  split
+  · rename_i y _
+    rw [hd y]
+    simp only [Schema.fix, mandOK_fix]
+  · rfl
+
+/-- today's output for `v` is the repaired class's output for `v` with the dropped attributes forgotten -/
+theorem encode_code_eq (S : Schema) (hS : S.fix.WF) (v : List Val) :
+    S.fix.encode (resetFs S.fields v) = S.encode v := by
+  obtain ⟨_, _, hwf, _⟩ := hS
+  simp only [Schema.encode, Schema.fix] at hwf ⊢
+  rw [encFs_fix_reset S.fields _ v hwf]
+
+/-- **Round trip of the code as it is: every field survives except the attributes the writer drops**,
+which read back as their default.  (For a schema without such attributes `resetFs` is the identity and
+this is `decode_encode`.) -/
+theorem decode_encode_code (S : Schema) (hS : S.fix.WF) (v : List Val) (hv : S.Canon v) :
+    S.parse (S.encode v) = some (resetFs S.fields v) := by
+  have hc : S.fix.Canon (resetFs S.fields v) :=
+    ⟨canonFs_fix_reset S.fields v hv.1, by
+      show mandOK (fixFs S.fields) (resetFs S.fields v) = true
+      rw [mandOK_fix, mandOK_reset]; exact hv.2⟩
+  rw [← parse_fix, ← encode_code_eq S hS v]
+  exact parse_encode S.fix hS _ hc
+
 /-! ## the modelled classes: each inherits the theorems above -/
 open Classes
 
@@ -135,6 +169,12 @@ theorem C01_defect_sasl2feature_tls0rtt :
     rfl
   rw [h2] at h1
   simp at h1
+
+/-- the repaired schemas are exactly the `fix` of the schemas of the code as it is, so
+`decode_encode_code` and `C02Codec.norm_idem_code` apply to today's classes -/
+theorem fix_FastFeatureCode : FastFeatureCode.fix.WF := by decide
+theorem fix_Sasl2StreamFeatureCode : Sasl2StreamFeatureCode.fix.WF := by decide
+theorem fix_StreamFeaturesCode : StreamFeaturesCode.fix.WF := by decide
 
 /-- the generic theorems do not apply to the schemas of the code as it is: they are not well-formed -/
 theorem not_wf_FastFeatureCode : ¬ FastFeatureCode.WF := by decide
